@@ -215,7 +215,32 @@ func checkC14(p *core.Program, r *core.Report) {
 		if len(fires) == 0 {
 			r.Fail(R3, "timeout dispatch of "+name, p.Pos(a.body.Pos()), "no timeout dispatch (call with timeout=true) found in the timer goroutine")
 		}
-		ls := core.Locksets(a.body, core.LockSet{})
+		lsCache := map[*ssa.Function]map[ssa.Instruction]core.LockSet{}
+		lsOf := func(in ssa.Instruction) core.LockSet {
+			fn := in.Parent()
+			if lsCache[fn] == nil {
+				lsCache[fn] = core.Locksets(fn, core.LockSet{})
+			}
+			return lsCache[fn][in]
+		}
+		shipLocal := func(f *ssa.Function) bool { return p.PkgShort(f) == "ship" && f.Blocks != nil }
+		// expiry helpers: ship functions the goroutine body calls with its own token ("am I still the armed timer,
+		// then unregister" extracted into a method)
+		var expiryCalls []*ssa.Call
+		if token != nil {
+			core.EachInstr(a.body, func(in ssa.Instruction) {
+				c, ok := in.(*ssa.Call)
+				if !ok || c.Call.StaticCallee() == nil || !shipLocal(c.Call.StaticCallee()) {
+					return
+				}
+				for _, arg := range c.Call.Args {
+					if resolve(arg) == token {
+						expiryCalls = append(expiryCalls, c)
+						gExpiryHelpers[c.Call.StaticCallee()] = true
+					}
+				}
+			})
+		}
 		for _, fire := range fires {
 			key := "timeout dispatch of " + name
 			if core.InLoop(fire.Block()) {
@@ -250,7 +275,7 @@ func checkC14(p *core.Program, r *core.Report) {
 					return false
 				}
 				if ld, ok := fieldSide.(ssa.Instruction); ok {
-					for id := range ls[ld] {
+					for id := range lsOf(ld) {
 						if strings.HasSuffix(id, "handshakeTimerMux") {
 							underLock = true
 						}
@@ -258,7 +283,7 @@ func checkC14(p *core.Program, r *core.Report) {
 				}
 				return true
 			}
-			if core.Guarded(fire, guard) {
+			if core.Guarded(fire, core.LiftEdge(guard, shipLocal, 1)) {
 				if underLock {
 					r.OK(R3, key, p.Pos(fire.Pos()), "guarded by token identity under the timer mutex")
 				} else {
@@ -267,25 +292,175 @@ func checkC14(p *core.Program, r *core.Report) {
 			} else {
 				r.Fail(R3, key, p.Pos(fire.Pos()), "the timeout is dispatched without re-validating that this timer is still the current, un-stopped one (the timer channel may already be ready when stop runs)")
 			}
+			// the expiring timer claims its expiry in the critical section of the identity check: between the
+			// load of the current token it compares with and the store that unregisters it, the timer mutex is
+			// not released (else a stop or re-arm that lands in between is overridden: the stopped timer still
+			// delivers, and the bookkeeping reset afterwards kills the newly armed timer)
+			{
+				var cmpLoad ssa.Instruction
+				core.EachInstr(a.body, func(in ssa.Instruction) {
+					bo, ok := in.(*ssa.BinOp)
+					if !ok || (bo.Op != token_EQL && bo.Op != token_NEQ) || token == nil {
+						return
+					}
+					var fieldSide ssa.Value
+					if resolve(bo.X) == token {
+						fieldSide = bo.Y
+					} else if resolve(bo.Y) == token {
+						fieldSide = bo.X
+					}
+					if fieldSide == nil {
+						return
+					}
+					if f, _ := core.LoadedField(fieldSide); f != nil && tokenFields[f] {
+						if ld, ok := fieldSide.(ssa.Instruction); ok {
+							cmpLoad = ld
+						}
+					}
+				})
+				claims := core.NewMust(p, 1, func(in ssa.Instruction) bool {
+					fl, _, _ := core.StoredField(in)
+					return fl != nil && (fl == fTimer || tokenFields[fl])
+				})
+				isUnlock := func(in ssa.Instruction) bool {
+					if _, isDefer := in.(*ssa.Defer); isDefer {
+						return false
+					}
+					id, op, _ := core.MutexOp(in)
+					return op < 0 && strings.HasSuffix(id, "handshakeTimerMux")
+				}
+				k := "expiry of " + name + " is claimed under the lock of its identity check"
+				// the check-and-unregister step may be a helper called with the token
+				helperOK := false
+				if cmpLoad == nil {
+					for _, hc := range expiryCalls {
+						h := hc.Call.StaticCallee()
+						undo := core.BindCall(hc)
+						var hLoad ssa.Instruction
+						core.EachInstr(h, func(in ssa.Instruction) {
+							bo, ok := in.(*ssa.BinOp)
+							if !ok || (bo.Op != token_EQL && bo.Op != token_NEQ) {
+								return
+							}
+							var fieldSide ssa.Value
+							if resolve(bo.X) == token {
+								fieldSide = bo.Y
+							} else if resolve(bo.Y) == token {
+								fieldSide = bo.X
+							}
+							if fieldSide == nil {
+								return
+							}
+							if f, _ := core.LoadedField(fieldSide); f != nil && tokenFields[f] {
+								if ld, ok := fieldSide.(ssa.Instruction); ok {
+									hLoad = ld
+								}
+							}
+						})
+						if hLoad != nil {
+							isClaim := func(in ssa.Instruction) bool {
+								switch in.(type) {
+								case *ssa.Store, *ssa.Call:
+									return claims.Instr(in)
+								}
+								return false
+							}
+							okH := true
+							core.EachInstr(h, func(in ssa.Instruction) {
+								ret, isRet := in.(*ssa.Return)
+								if !isRet || len(ret.Results) != 1 || !isBoolConst(core.ResultOf(ret, 0), true) {
+									return
+								}
+								if core.PathSearch(h, hLoad, func(y ssa.Instruction) bool { return y == ssa.Instruction(ret) }, isClaim, nil) != nil {
+									okH = false // reports "I am the armed timer" without unregistering
+								}
+							})
+							if core.PathSearch(h, hLoad, isUnlock, isClaim, guardNegated(guard)) != nil {
+								okH = false
+							}
+							held := false
+							for id := range lsOf(hLoad) {
+								if strings.HasSuffix(id, "handshakeTimerMux") {
+									held = true
+								}
+							}
+							if okH && held {
+								helperOK = true
+							}
+						}
+						undo()
+					}
+				}
+				switch {
+				case helperOK:
+					r.OK(R3, k, p.Pos(fire.Pos()), "check and unregistration happen in one critical section of a helper")
+				case cmpLoad == nil:
+					r.Fail(R3, k, p.Pos(fire.Pos()), "no comparison of the connection's current token with the goroutine's own token found")
+				default:
+					// on the way from the comparison's load to the dispatch: a claim must come before any unlock
+					claimFirst := core.PathSearch(a.body, cmpLoad, func(in ssa.Instruction) bool { return in == fire }, func(in ssa.Instruction) bool {
+						switch in.(type) {
+						case *ssa.Store, *ssa.Call:
+							return claims.Instr(in)
+						}
+						return false
+					}, nil) == nil
+					unlockBeforeClaim := false
+					if claimFirst {
+						// and no unlock between the load and that claim
+						var firstClaimHit bool
+						_ = firstClaimHit
+						bad := core.PathSearch(a.body, cmpLoad, isUnlock, func(in ssa.Instruction) bool {
+							switch in.(type) {
+							case *ssa.Store, *ssa.Call:
+								return claims.Instr(in)
+							}
+							return false
+						}, guardNegated(guard))
+						unlockBeforeClaim = bad != nil
+					}
+					if claimFirst && !unlockBeforeClaim {
+						r.OK(R3, k, p.Pos(fire.Pos()), "token cleared before the mutex is released")
+					} else {
+						r.Fail(R3, k, p.Pos(fire.Pos()), "the timer mutex is released between the identity check and the reset of the timer bookkeeping (or the bookkeeping is not reset before the dispatch): a stop or re-arm landing in that window is overridden - a stopped timer still delivers its timeout, and the late reset removes the newly armed timer")
+					}
+				}
+			}
 			// a timer goroutine touches the connection's timer bookkeeping only after it has established that
 			// it is the current timer: a replaced timer that still expires must not clear the running flag or
 			// the token of its successor
-			core.EachInstr(a.body, func(in ssa.Instruction) {
-				fl, _, _ := core.StoredField(in)
-				if fl == nil || (fl != fTimer && !tokenFields[fl]) {
-					return
-				}
-				k := "timer goroutine of " + name + " writes " + fl.Name() + " only as the current timer"
-				if core.Guarded(in, guard) {
-					r.OK(R3, k, p.Pos(in.Pos()), "behind the token identity check")
-				} else {
-					r.Fail(R3, k, p.Pos(in.Pos()), "an expiring timer that was already replaced updates "+fl.Name()+" of the connection: the bookkeeping of the current timer is corrupted (it is then not stopped, or believed stopped, and fires into a later phase)")
-				}
-			})
+			writeFns := []*ssa.Function{a.body}
+			bindFor := map[*ssa.Function]*ssa.Call{}
+			for _, hc := range expiryCalls {
+				writeFns = append(writeFns, hc.Call.StaticCallee())
+				bindFor[hc.Call.StaticCallee()] = hc
+			}
+			for _, wf := range writeFns {
+				wf := wf
+				core.EachInstr(wf, func(in ssa.Instruction) {
+					fl, _, _ := core.StoredField(in)
+					if fl == nil || (fl != fTimer && !tokenFields[fl]) {
+						return
+					}
+					k := "timer goroutine of " + name + " writes " + fl.Name() + " only as the current timer"
+					if hc := bindFor[wf]; hc != nil {
+						undo := core.BindCall(hc)
+						defer undo()
+					}
+					if core.Guarded(in, guard) {
+						r.OK(R3, k, p.Pos(in.Pos()), "behind the token identity check")
+					} else {
+						r.Fail(R3, k, p.Pos(in.Pos()), "an expiring timer that was already replaced updates "+fl.Name()+" of the connection: the bookkeeping of the current timer is corrupted (it is then not stopped, or believed stopped, and fires into a later phase)")
+					}
+				})
+			}
 		}
 	}
 	// R2: cancellation sites
 	inFire := func(fn *ssa.Function) bool {
+		if gExpiryHelpers[fn] {
+			return true
+		}
 		for _, a := range arms {
 			if core.NestedIn(fn, a.body) {
 				return true
@@ -525,3 +700,17 @@ func checkPhaseTimers(p *core.Program, r *core.Report, R6 string) {
 	}
 	r.Counts["reachable_quiescent_configs"] = len(reach)
 }
+
+// guardNegated removes the edges on which a guard's own branch goes the other way (the "not the current timer"
+// exits), so that a search only follows the path on which the guard held.
+func guardNegated(guard core.EdgeFilter) core.EdgeFilter {
+	return func(b *ssa.BasicBlock, idx int) bool {
+		if core.BlockIf(b) == nil || len(b.Succs) != 2 {
+			return false
+		}
+		return guard(b, 1-idx) && !guard(b, idx)
+	}
+}
+
+// gExpiryHelpers: functions a timer goroutine calls with its own token (part of the fire path).
+var gExpiryHelpers = map[*ssa.Function]bool{}
